@@ -48,7 +48,7 @@ func loadWorld(repo string) (*World, error) {
 	if len(errs) > 0 {
 		return nil, fmt.Errorf("package errors:\n%s", strings.Join(errs, "\n"))
 	}
-	prog, spkgs := ssautil.Packages(pkgs, ssa.InstantiateGenerics)
+	prog, spkgs := ssautil.Packages(pkgs, ssa.InstantiateGenerics|ssa.GlobalDebug)
 	w := &World{repo: repo, prog: prog, pkgs: pkgs, spkgs: map[string]*ssa.Package{}, files: map[string]*ContractFile{},
 		contracts: map[*ssa.Function]*FuncContract{}, lines: map[string][]string{}}
 	// build SSA for the repo packages and everything they import from the repo
